@@ -24,7 +24,8 @@ inductive CellVal where
   | datetime2 (y mo d h mi s : Nat) (frac : Nat)
   | timestamp2 (sec : Nat) (frac : Nat)
   | str (b : Bytes)                         -- VARCHAR/CHAR/BINARY/BLOB/GEOMETRY payload
-  | raw (b : Bytes)                         -- already encoded (JSON documents are written by Spec/Json)
+  | raw (b t : Bytes)                       -- travels pre-encoded as the bytes b, canonical text t (JSON columns:
+                                            -- b and t are tied to a document by `CellOK`, GV/Spec/CellWF.lean)
   deriving Repr, DecidableEq, BEq, Inhabited
 
 open Bytes
@@ -102,7 +103,7 @@ def cell (typ md : Nat) : CellVal → Bytes
       ofBE 5 (v + 0x8000000000) ++ ofBE (fracBytes md) (fracStored md frac)
   | .timestamp2 sec frac => ofBE 4 sec ++ ofBE (fracBytes md) (fracStored md frac)
   | .str b => lenPrefix (strPrefixWidth typ md) b
-  | .raw b => b
+  | .raw b _ => b
 
 /-! ### canonical text (the property's right-hand side) -/
 
@@ -144,6 +145,6 @@ def text (md : Nat) (localCivil : Nat → Bytes) (ff32 ff64 : Nat → Bytes) : C
   | .timestamp2 sec frac =>
       (if sec = 0 then asc "0000-00-00 00:00:00" else localCivil sec) ++ fracText md frac
   | .str b => b
-  | .raw b => b
+  | .raw _ t => t
 
 end GV.W
